@@ -189,6 +189,14 @@ func init() {
 				m.Parts = append(m.Parts, tinyStream(r.Intn(100)))
 				m.Pads = append(m.Pads, 0)
 			}
+			if !c.Single && r.Chance(1, 80) {
+				// 70-300 streams without content in a row, somewhere in the chain
+				// (one part of the recipe, many streams: not for SingleStream cases,
+				// whose model takes a part for a stream)
+				at := r.Intn(len(m.Parts) + 1)
+				m.Parts = append(m.Parts[:at], append([]StreamRecipe{{Kind: "refenc-empties", Seed: r.Uint64()}}, m.Parts[at:]...)...)
+				m.Pads = append(m.Pads[:at], append([]int{4 * r.Intn(3)}, m.Pads[at:]...)...)
+			}
 			if r.Chance(1, 3) {
 				for i := range m.Pads {
 					if r.Chance(1, 2) {
